@@ -237,7 +237,7 @@ func newSess(mode string, np, maxwb int, listen bool) (*sess, error) {
 	s.g = g
 	g.OnOpen(func(nc *nbio.Conn) { s.onOpen(nc) })
 	g.OnClose(func(nc *nbio.Conn, err error) { s.onClose(nc, err) })
-	g.OnData(func(nc *nbio.Conn, data []byte) {})
+	g.OnData(func(nc *nbio.Conn, data []byte) { s.onData(nc, data) })
 	curMu.Lock()
 	cur = s
 	curMu.Unlock()
@@ -331,6 +331,25 @@ func (s *sess) onOpen(nc *nbio.Conn) {
 		s.mu.Unlock()
 		_ = nc.Close()
 		s.mu.Lock()
+	}
+}
+
+// onData: nothing may be delivered on a conn after its close notification (a closed UDP session must be gone from its
+// listener's table: the next datagram of that remote opens a new session)
+func (s *sess) onData(nc *nbio.Conn, data []byte) {
+	s.mu.Lock()
+	defer s.mu.Unlock()
+	if nc == s.warmConn {
+		return
+	}
+	ci := s.byPtr[nc]
+	if ci == nil {
+		return
+	}
+	if len(ci.closes) > 0 {
+		s.orc = append(s.orc, fmt.Sprintf("c03-close-once conn %d (%s): %d bytes handed to the data callback after its close notification (%s)", ci.id, ci.kind, len(data), ci.closes[0]))
+	} else if closed, _ := nc.IsClosed(); closed && ci.kind == "sess" {
+		s.orc = append(s.orc, fmt.Sprintf("c03-close-once session %d: %d bytes attributed to a session that is already closed", ci.id, len(data)))
 	}
 }
 
